@@ -1939,6 +1939,11 @@ Section join.
     intros (St & H). split; [|exact H]. constructor; simpl; apply St.
   Qed.
 
+  Lemma pre_clear_restale j : pre j -> pre (Join.clear_restale j).
+  Proof.
+    intros [St H1 H2 H3 H4 H5]. constructor; simpl; auto. constructor; simpl; apply St.
+  Qed.
+
   (* a state reached by a recompute of the join is a good place to stop *)
   Lemma post_final jA jB :
     post jA jB -> consistent (Join.outer jA) -> Join.ingraph jA = true -> Join.cdefs jA = cdefs0 -> Sinv jB ->
@@ -2033,27 +2038,29 @@ Section join.
     rewrite A7.
     destruct (Join.restale j3) eqn:Er.
     - (* link marked the join stale: it runs a second time, after the nodes it has just linked *)
-      assert (Hpre5 : pre (Join.clear_restale j4)).
-      { constructor; simpl.
-        - constructor; simpl; apply St4.
+      assert (Hpre4 : pre j4).
+      { constructor.
+        - exact St4.
         - rewrite A2, A1. congruence.
         - intros k. rewrite A4, A2. apply (post_dom _ _ Hpost3).
         - rewrite A11, Hout3, Ho2. exact Houter.
         - rewrite A10. exact Hd3.
         - right. unfold j4. rewrite phaseC_fold. apply phase_fold_fresh; [apply condC_takes|exact St3|exact Hg3'|].
           intros k x Hk. left. apply (post_fresh _ _ Hpost3). exact Hk. }
+      pose proof (pre_clear_restale _ Hpre4) as Hpre5.
       destruct (Stabilize_spec _ Hpre5) as (Hpost6 & _).
       destruct (Stabilize_QS (Join.clear_restale j4)) as (_ & Hs6).
-      { right. intros x Hx. simpl in Hx. rewrite A2 in Hx. unfold j4. rewrite phaseC_fold.
+      { right. intros x Hx. change (range_has (Join.linked j4) x) in Hx. rewrite A2 in Hx.
+        change (x ∉ Join.cstale j4). unfold j4. rewrite phaseC_fold.
         apply phase_fold_clean; [apply condC_takes|exact St3|exact Hg3'| |exact Hx].
         intros z _ Hz. apply Hs3. exact Hz. }
       { exact Hs4. }
       apply (post_final (Join.clear_restale j4)).
       + apply post_clear_restale. exact Hpost6.
-      + simpl. rewrite A11, Hout3, Ho2. exact Houter.
-      + simpl. congruence.
-      + simpl. congruence.
-      + intros x Hx. simpl in *. apply Hs6. exact Hx.
+      + change (consistent (Join.outer j4)). rewrite A11, Hout3, Ho2. exact Houter.
+      + change (Join.ingraph j4 = true). congruence.
+      + change (Join.cdefs j4 = cdefs0). congruence.
+      + exact Hs6.
     - (* nothing was linked: no linked node was stale, the join has nothing more to see *)
       destruct Hq3 as [Hr|Hq3]; [congruence|].
       destruct (phase_fold_quiet condC (Join.cdefs j3) j3 condC_only St3 Hg3' Hq3) as (Hp4 & Hv4).
@@ -2161,7 +2168,7 @@ Section join.
         * rewrite A11. exact Houter.
         * rewrite A14 by exact Hg. exact Hpending.
         * intros Hg'. congruence.
-        * intros _. rewrite A6, A2. apply Hout. exact Hg.
+        * intros _. rewrite A6, A2. apply Hout. reflexivity.
         * congruence.
         * intros x Hx. rewrite A12. apply Hsinv. apply A13. exact Hx.
   Qed.
@@ -2223,6 +2230,23 @@ Section join.
   Qed.
 End join.
 
+Lemma event_ok_spelled_out (keyOf : Z -> Z) (cdefs0 : list (Z * Join.cdef)) (e : Join.ev) :
+  event_ok keyOf cdefs0 e <->
+  match e with
+  | Join.SetOuter m => forall k x, m !! k = Some x -> keyOf x = k
+  | Join.SetInner x _ => x ∉ map fst cdefs0
+  | _ => True
+  end.
+Proof. destruct e; reflexivity. Qed.
+
+(* histories without computed nodes: only the outer maps have to be checked *)
+Lemma events_ok_vars keyOf (evs : list Join.ev) :
+  (forall m, Join.SetOuter m ∈ evs -> consistent keyOf m) -> forall e, e ∈ evs -> event_ok keyOf [] e.
+Proof.
+  intros H e He. destruct e; simpl; auto.
+  intros Hx. inversion Hx.
+Qed.
+
 (** ** the code before the relink repair ([fixed = false]) does not satisfy the unrestricted
     statement, and neither variant does once an inner node sits under two keys or moves *)
 Definition join_holds (fixed : bool) (vals0 : zmap) (evs : list Join.ev) : Prop :=
@@ -2265,7 +2289,8 @@ Proof. vm_compute. auto. Qed.
 Example join_relink_fixed : join_holds true relink_vals0 relink_history.
 Proof.
   unfold join_holds. intros Hg.
-  exact (join_correct true (fun _ => 0) relink_vals0 ∅ relink_history [] relink_history_consistent (or_introl eq_refl) Hg).
+  exact (join_correct true (fun _ => 0) [] relink_vals0 ∅ relink_history []
+           (events_ok_vars _ _ relink_history_consistent) (or_introl eq_refl) Hg).
 Qed.
 
 (* witness 2: one inner node under two keys of the same outer map; no unobserve involved,
@@ -2411,5 +2436,43 @@ Proof.
       inversion Hm; subst;
       repeat (apply consistent_insert; [reflexivity|]); apply consistent_empty.
   - intros Hm. repeat (apply elem_of_cons in Hm as [Hm|Hm]; [try discriminate|]). inversion Hm.
+  - vm_compute. auto.
+Qed.
+
+(** ** computed inner nodes: the second run of the join in one pass is what makes it right *)
+Definition computed_cdefs : list (Z * Join.cdef) := [(8, Join.CDef false 1 0 10); (12, Join.CDef true 3 0 50)].
+(* node 8 (observed elsewhere) is computed by the first pass at 1*1+10 = 11; then, in ONE pass,
+   base0 becomes 5 and key 0 is bound to node 8 *)
+Definition computed_history : list Join.ev :=
+  [Join.Observe; Join.Pass []; Join.SetBase 0 5; Join.SetOuter {[0 := 8]}].
+
+Example join_second_run_needed :
+  let j0 := fold_left (Join.step true) computed_history (Join.init ∅ {[0 := 1]} computed_cdefs) in
+  let j1 := Join.first_run true [] j0 in              (* the engine takes node 8 after the join *)
+  Join.value j1 !! 0 = Some 11 /\                      (* the join linked 8 and read its old value *)
+  Join.vals j1 !! 8 = Some 15 /\                       (* 8 has recomputed since, and told the join *)
+  Join.pending j1 = [0] /\ Join.restale j1 = true /\   (* which link had marked stale *)
+  Join.value (Join.pass true [] j0) !! 0 = Some 15 /\  (* so it runs again and picks 15 up *)
+  Join.value (Join.pass true [8] j0) !! 0 = Some 15.   (* the other schedule: 8 before the join *)
+Proof. vm_compute. repeat split; reflexivity. Qed.
+
+(* the hypotheses of join_correct hold for a history with computed nodes (one observed elsewhere,
+   one lazy), keys repointed between a var and a computed node, base writes in the linking pass *)
+Example join_computed_hypotheses :
+  let keyOf := fun x => Z.rem x 4 in
+  let evs := computed_history ++ [Join.Pass []; Join.SetOuter {[0 := 12; 1 := 1]}; Join.SetBase 0 2;
+                                  Join.SetInner 1 9; Join.Pass [12]; Join.SetOuter {[0 := 4; 1 := 1]}] in
+  (forall e, e ∈ evs -> event_ok keyOf computed_cdefs e) /\ Join.Unobserve ∉ evs /\
+  let j := fold_left (Join.step true) (evs ++ [Join.Pass []]) (Join.init {[1 := 2; 4 := 5]} {[0 := 1]} computed_cdefs) in
+  Join.ingraph j = true /\ entries (Join.value j) = [(0, 5); (1, 9)].
+Proof.
+  split; [|split].
+  - intros e He. unfold computed_history in He. simpl in He.
+    repeat (apply elem_of_cons in He as [->|He]; [simpl; auto|]); try (inversion He; fail);
+      try (repeat (apply consistent_insert; [reflexivity|]); apply consistent_empty).
+    intros Hx. unfold computed_cdefs in Hx. simpl in Hx.
+    repeat (apply elem_of_cons in Hx as [Hx|Hx]; [discriminate|]). inversion Hx.
+  - intros Hm. unfold computed_history in Hm. simpl in Hm.
+    repeat (apply elem_of_cons in Hm as [Hm|Hm]; [try discriminate|]). inversion Hm.
   - vm_compute. auto.
 Qed.
